@@ -19,14 +19,16 @@ class Widths:
 
 
 class Screen:
-    def __init__(self, cols, width):
+    def __init__(self, cols, width, tab=8):
         self.W, self.width = cols, width
+        self.tab = tab            # tab stops every `tab` columns (Config::tab_stop tells rustyline what the terminal has)
         self.rows = {}            # row -> list of cells (None | (cp, extras) | "cont")
         self.r, self.c = 0, 0
         self.pending = False      # deferred wrap: the cursor is shown on the last column
         self.flags = []           # things a real, finite terminal would do differently
         self.lowest = 0
         self.lf_while_pending = False   # a line break arrived while the cursor sat in the last column (deferred wrap)
+        self.tab_clamped = False
 
     def _row(self, r):
         if r not in self.rows:
@@ -93,7 +95,9 @@ class Screen:
             elif ch == 0x07:
                 pass
             elif ch == 0x09:
-                self.c = min(self.W - 1, (self.c // 8 + 1) * 8)
+                if (self.c // self.tab + 1) * self.tab > self.W - 1:
+                    self.tab_clamped = True       # a tab that would cross the right margin stops in the last column
+                self.c = min(self.W - 1, (self.c // self.tab + 1) * self.tab)
             elif ch < 0x20:
                 pass
             else:
@@ -178,11 +182,11 @@ class Screen:
         return (self.r, self.c)
 
 
-def layout(cols, width, text_before, text_after, tail=()):
+def layout(cols, width, text_before, text_after, tail=(), tab=8):
     """what a terminal shows after printing text_before + text_after + tail on a blank screen from the anchor, and the
     cell of the logical cursor: where the character after the cursor is displayed, or -- at the end -- where the next
     character would go"""
-    s = Screen(cols, width)
+    s = Screen(cols, width, tab)
     s.feed(expand(text_before))
     if s.pending:
         cur = (s.r + 1, 0)
@@ -194,8 +198,8 @@ def layout(cols, width, text_before, text_after, tail=()):
         k = 0
         while k < len(rest) and width(rest[k]) == 0 and rest[k] != 0x0a:
             k += 1
-        if k < len(rest) and rest[k] != 0x0a:
-            t = Screen(cols, width)
+        if k < len(rest) and rest[k] not in (0x0a, 0x09):
+            t = Screen(cols, width, tab)
             t.feed(expand(text_before))
             t.put(rest[k])
             w = width(rest[k])
@@ -208,7 +212,9 @@ def layout(cols, width, text_before, text_after, tail=()):
     s.feed(expand(rest))
     whole = list(text_before) + rest
     s.known_class = None
-    if s.lf_while_pending:
+    if s.tab_clamped:
+        s.known_class = "K_tab_margin"          # a tab whose next stop lies beyond the right margin
+    elif s.lf_while_pending:
         s.known_class = "K_fullrow_lf"          # a row filled exactly to the last column, then a line break
     elif whole and whole[-1] != 0x0a and s.c == 0 and not s.pending and s.r > 0:
         s.known_class = "K_zw_after_lf"         # the last line holds only zero-width characters
